@@ -65,7 +65,7 @@ def prove_targets(db, targets, lemmas=(), timeout_ms=20000, verbose=False):
                 rec = fi.record()
                 rec["contract"] = c2.target
                 rec["obligations"] = len(o)
-                if c2.options.get("glue") or c2.options.get("frame_only"):
+                if c2.options.get("glue") or c2.options.get("frame_only") or c2.options.get("no_fuzz"):
                     rec["no_fuzz"] = True  # trace contracts of orchestration code have no concrete evaluator
                 funcs.append(rec)
             except Unsupported as e:
